@@ -1118,3 +1118,11 @@ class ProgGen:
             if labelled and rng.random() < 0.5:     # the surviving labels must address their legs
                 emit(dict(op='get_leg_index', **{'in': [cur]}, ax=a._labels[rng.choice(labelled)]))
         return case
+
+    # ------------------------------------------------------------------ rarely emitted public operations
+    def gen_coverage_case(self, rng, max_steps):
+        """Coverage stream (constructors, label methods, true division, ==, matvec, add_charge,
+        as_completely_blocked, element / tensor assignment, Ellipsis, grid_concat, detect_*, operations on pipe legs,
+        legs equal only up to flip_charges_qconj): see harness/c01_cov.py."""
+        from harness import c01_cov
+        return c01_cov.gen_coverage_case(self, rng, max_steps)
